@@ -1451,8 +1451,10 @@ impl Agent for ClientConductor {
         let mut work_count = 0;
 
         let dla = self.driver_listener_adapter.take().unwrap();
-        work_count += dla.receive_messages(self)?;
+        let received = dla.receive_messages(self);
+        // put the adapter back before propagating an error, otherwise the next duty cycle panics on `take().unwrap()`
         self.driver_listener_adapter.replace(dla);
+        work_count += received?;
         work_count += self.on_heartbeat_check_timeouts() as usize;
         Ok(work_count as i32)
     }
